@@ -28,7 +28,7 @@ def batches(tier, seed):
         cases.append(c)
     yield 'g-conn', cases
     pc = []
-    for i in range(80 if tier == 'quick' else 1200):
+    for i in range(140 if tier == 'quick' else 1500):
         for _try in range(60):
             c = dsgcase.gen_sel(rng, max_nodes=6, max_choices=2, n_incompat=0)
             if not dsgcase.guards(c):
